@@ -103,6 +103,8 @@ def rand_txns(rng, flows, n):
             path = path[:-1] + [rng.choice(LITS)]              # other last segment
         elif x < 0.42:
             host = rng.choice([["g", "com"], host + ["x"], host[1:] or ["com"]])
+        elif x < 0.45 and len(host) > 1:
+            host, path = host[:-1], [host[-1]] + path          # last host label moved into the path
         url = [host, path]
         meth = rng.choice(f["m"]) if f["m"] and rng.random() < 0.6 else rng.choice(METHODS)
         if rng.random() < 0.35:
@@ -302,7 +304,7 @@ class Judge:
 
 
 # ------------------------------------------------------------------------------------------------ the check
-MC_BASE = {"MaxPath": "2", "NFlowsA": "0", "MaxFlows": "3", "FlowDomain": "<- FlowsA", "TxnDomain": "<- TxnsA",
+MC_BASE = {"SymLits": "<- SymA", "MaxPath": "2", "NFlowsA": "0", "MaxFlows": "3", "FlowDomain": "<- FlowsA", "TxnDomain": "<- TxnsA",
            "KF_NodeReq": "FALSE", "LookupMode": '"exact"', "KF_EndTest": "FALSE", "KF_WildNew": "TRUE"}
 
 
@@ -317,12 +319,15 @@ def write_cfg(sd, name, over, gen=None):
             lines.append("  %s %s" % (k, v if v.startswith("<-") else "= " + v))
         lines += ["SPECIFICATION GSpec", "CHECK_DEADLOCK FALSE"]
     else:
-        lines += ["SPECIFICATION ISpec", "INVARIANTS InvCorrect InvOrder InvBuild", "CHECK_DEADLOCK FALSE"]
+        lines += ["SPECIFICATION ISpec", "INVARIANTS InvCorrect InvOrder InvBuild Witnesses", "CHECK_DEADLOCK FALSE"]
     open(os.path.join(sd, name), "w").write("\n".join(lines) + "\n")
     return name
 
 
-SPACE_B = {"MaxPath": "1", "FlowDomain": "<- FlowsB1", "TxnDomain": "<- TxnsB", "MaxFlows": "2"}
+WITNESSES = ["must-run", "must-not-run", "Z1-wildcard-faces-nothing", "Z2-shadowed", "Z3-not-observable-on-this-side",
+             "Z4-header-value-case", "Z5-method-outside-default-set", "extra-trailing-segment", "missing-trailing-segment",
+             "two-flows-selected", "nothing-selected", "two-flows-on-one-node", "one-of-two-on-a-node-selected"]
+SPACE_B = {"SymLits": "<- SymNone", "MaxPath": "1", "FlowDomain": "<- FlowsB1", "TxnDomain": "<- TxnsB", "MaxFlows": "2"}
 
 
 def phase1(ctx, sd):
@@ -358,6 +363,14 @@ def phase1(ctx, sd):
         return generate(ctx, sd, "B", {"MaxPath": "1"}, {"GenFlows": "<- FlowsB1", "GenTxns": "<- TxnsB", "GenMaxFlows": "2"})
     res = parallel(one, tasks, n=(8 if not T else 4))
     ctx.log("non-vacuity: %d deviating variants of I refuted" % len(broken))
+    # non-vacuity of the instances themselves: every verdict, every open zone and the multi-flow situations were reached
+    seen = set()
+    for r in res[:len(runs)]:
+        seen |= set(re.findall(r'"WITNESS ([^"]+)"', r.out))
+    missing = [w for w in WITNESSES if w not in seen]
+    if missing:
+        raise Broken("bounded instances never reach: %s (vacuous exhaustive check)" % ", ".join(missing))
+    ctx.notes.append("witnesses reached by the exhaustive runs: " + ", ".join(sorted(seen)))
     return res[-2], res[-1]
 
 
@@ -465,8 +478,12 @@ def replay(ctx, path):
     obj = json.load(open(path))
     binary = ctx.build_harness("c03")
     rp = obj["replay"]
-    ev = execute(ctx, binary, rp["mode"], [rp["case"]], "replay")
-    rej, drift, _ = tlc_judge(ctx, ev, "replay")
+    # engine level: the load order comes from Go's map iteration, so a load-order dependent case may need several engine builds
+    for attempt in range(1 if rp["mode"] == "tree" else 20):
+        ev = execute(ctx, binary, rp["mode"], [rp["case"]], "replay")
+        rej, drift, _ = tlc_judge(ctx, ev, "replay")
+        if rej:
+            break
     for e in ev:
         print(json.dumps(e))
     if rej:
